@@ -2,6 +2,7 @@ package sio
 
 import (
 	"encoding/json"
+	"errors"
 	"reflect"
 	"time"
 
@@ -108,3 +109,87 @@ func verifInRoom(n *Namespace, sid SocketID, room Room) bool {
 }
 
 func verifNoRooms() mapset.Set[Room] { return mapset.NewSet[Room]() }
+
+// verifFrameParser is a decoder stand-in for dispatch harnesses: a frame is "<type digit><namespace>,<event>[#<k>]"
+// where k attachment frames follow; Add calls finish synchronously when the packet is complete (what the real parser
+// does). Encoding is recorded like verifRecParser.
+type verifFrameParser struct {
+	log     *[]verifEncoded
+	pending *parser.PacketHeader
+	event   string
+	left    int
+}
+
+func (p *verifFrameParser) Encode(h *parser.PacketHeader, v any) ([][]byte, error) {
+	*p.log = append(*p.log, verifEncoded{h.Type, h.Namespace, v})
+	return [][]byte{append([]byte{'0' + byte(h.Type)}, h.Namespace...)}, nil
+}
+
+func (p *verifFrameParser) Add(data []byte, finish parser.Finish) error {
+	if p.pending != nil {
+		p.left--
+		if p.left == 0 {
+			h, ev := p.pending, p.event
+			p.pending = nil
+			finish(h, ev, verifArgDecode)
+		}
+		return nil
+	}
+	if len(data) < 1 {
+		return errVerifFrame
+	}
+	h := &parser.PacketHeader{Type: parser.PacketType(data[0] - '0')}
+	i := 1
+	for i < len(data) && data[i] != ',' {
+		i++
+	}
+	h.Namespace = string(data[1:i])
+	ev := ""
+	k := 0
+	if i < len(data) {
+		rest := data[i+1:]
+		j := 0
+		for j < len(rest) && rest[j] != '#' {
+			j++
+		}
+		ev = string(rest[:j])
+		if j+1 < len(rest) {
+			k = int(rest[j+1] - '0')
+		}
+	}
+	if k > 0 {
+		p.pending, p.event, p.left = h, ev, k
+		return nil
+	}
+	finish(h, ev, verifArgDecode)
+	return nil
+}
+func (p *verifFrameParser) Reset() { p.pending = nil }
+
+var errVerifFrame = errors.New("verif: bad frame")
+
+func verifMsg(s string) *eioparser.Packet {
+	return &eioparser.Packet{Type: eioparser.PacketTypeMessage, Data: []byte(s)}
+}
+
+// verifConnected connects the world's connection to the given namespaces (sequentially, through the real connect).
+func (w *verifSrv) verifConnected(nsps ...string) map[string]*serverSocket {
+	out := map[string]*serverSocket{}
+	for _, n := range nsps {
+		w.conn.connect(&parser.PacketHeader{Type: parser.PacketTypeConnect, Namespace: n}, verifNoDecode)
+		s, _ := w.conn.sockets.getByNsp(n)
+		out[n] = s
+	}
+	verifWaitQuiescent()
+	return out
+}
+
+// verifArgDecode builds the values the real decoder would hand to onEvent: a pointer to a fresh value per requested type.
+func verifArgDecode(types ...reflect.Type) ([]reflect.Value, error) {
+	out := make([]reflect.Value, len(types))
+	for i, t := range types {
+		out[i] = reflect.New(t)
+	}
+	return out, nil
+}
+
